@@ -3,11 +3,17 @@
 package filtering
 
 import (
+	"bytes"
 	"encoding/json"
+	"fmt"
 	"io/fs"
 	"math/rand/v2"
+	"net/http"
+	"net/http/httptest"
 	"net/netip"
+	"os"
 	"path/filepath"
+	"slices"
 	"sort"
 	"strconv"
 	"strings"
@@ -232,3 +238,384 @@ func c18fGen(r *rand.Rand, emit vutil.Emit) {
 }
 
 func TestVerifC18Applied(t *testing.T) { vutil.Main(t, c18fGen, c18fRun(t)) }
+
+// ---------------------------------------------------------------------------
+// Sequences on ONE long-lived DNSFilter (blocks starting with C18.sreset).
+//
+// A block runs inside one synctest bubble, so the fake clock persists between
+// its lines: requests (global and per-client), updates of the global schedule
+// and services through the real HTTP handlers, changes of the client's own
+// settings, and clock advances.  Every request is compared with the STATELESS
+// model: the schedule in force at that instant decides, whatever happened
+// before.
+
+var (
+	c18sGlobalIDs = []string{"facebook", "youtube"}
+	c18sClientIDs = []string{"tiktok", "twitch"}
+	c18sDayKeys   = []string{"sun", "mon", "tue", "wed", "thu", "fri", "sat"}
+)
+
+// c18sSchedJSON renders a schedule for the HTTP API (durations in ms).
+func c18sSchedJSON(zone string, f []string) map[string]any {
+	m := map[string]any{"time_zone": zone}
+	for i, k := range c18sDayKeys {
+		s, e := c18fI64(f[2*i]), c18fI64(f[2*i+1])
+		if s == 0 && e == 0 {
+			continue
+		}
+		m[k] = map[string]int64{"start": s / 1_000_000, "end": e / 1_000_000}
+	}
+
+	return m
+}
+
+// c18sWorld is the implementation state of one block.
+type c18sWorld struct {
+	d       *DNSFilter
+	gLoc    *time.Location
+	cli     *BlockedServices
+	cLoc    *time.Location
+	dataDir string
+}
+
+func (w *c18sWorld) do(f []string) []string {
+	switch f[0] {
+	case "C18.sreset":
+		w.cli, w.cLoc, w.gLoc = nil, nil, time.Local
+		d, err := New(&Config{
+			DataDir:        w.dataDir,
+			ConfigModified: func() {},
+			BlockedServices: &BlockedServices{Schedule: schedule.EmptyWeekly()},
+			ApplyClientFiltering: func(_ string, _ netip.Addr, setts *Settings) {
+				// what client.Storage.ApplyClientFiltering does with a client
+				// that has its own blocked services: hand out a copy
+				setts.BlockedServices = w.cli.Clone()
+			},
+		}, nil)
+		if err != nil {
+			panic(err)
+		}
+		w.d = d
+
+		return []string{"ok"}
+	case "C18.supd":
+		zone := vutil.Unhex(f[1])
+		body, err := json.Marshal(map[string]any{
+			"schedule": c18sSchedJSON(zone, f[2:16]),
+			"ids":      c18sGlobalIDs[:vutil.Atoi(f[16])],
+		})
+		if err != nil {
+			panic(err)
+		}
+		rec := httptest.NewRecorder()
+		w.d.handleBlockedServicesUpdate(rec, httptest.NewRequest(http.MethodPut, "/control/blocked_services/update", bytes.NewReader(body)))
+		if rec.Code == http.StatusOK {
+			w.gLoc, _ = time.LoadLocation(zone)
+		}
+
+		return []string{strconv.Itoa(rec.Code)}
+	case "C18.sset":
+		body, _ := json.Marshal(c18sGlobalIDs[:vutil.Atoi(f[1])])
+		rec := httptest.NewRecorder()
+		w.d.handleBlockedServicesSet(rec, httptest.NewRequest(http.MethodPost, "/control/blocked_services/set", bytes.NewReader(body)))
+
+		return []string{strconv.Itoa(rec.Code)}
+	case "C18.scli":
+		if !vutil.UnB(f[1]) {
+			w.cli, w.cLoc = nil, nil
+
+			return []string{"ok"}
+		}
+		zone := vutil.Unhex(f[2])
+		w.cli = &BlockedServices{Schedule: c18fSchedule(zone, f[3:17]), IDs: c18sClientIDs[:vutil.Atoi(f[17])]}
+		w.cLoc, _ = time.LoadLocation(zone)
+
+		return []string{"ok"}
+	case "C18.sreq":
+		target := time.Unix(c18fI64(f[2]), c18fI64(f[3]))
+		time.Sleep(target.Sub(time.Now()))
+		now := time.Now()
+		setts := &Settings{ProtectionEnabled: true, FilteringEnabled: true}
+		switch f[1] {
+		case "global":
+			w.d.ApplyBlockedServices(setts)
+		case "client":
+			w.d.ApplyAdditionalFiltering(netip.MustParseAddr("192.0.2.1"), "cli", setts)
+		default:
+			panic("unknown site " + f[1])
+		}
+		nG, nC := 0, 0
+		for _, e := range setts.ServicesRules {
+			switch {
+			case slices.Contains(c18sGlobalIDs, e.Name):
+				nG++
+			case slices.Contains(c18sClientIDs, e.Name):
+				nC++
+			default:
+				panic("unexpected service " + e.Name)
+			}
+		}
+		_, offG := now.In(w.gLoc).Zone()
+		offC := 0
+		if w.cLoc != nil {
+			_, offC = now.In(w.cLoc).Zone()
+		}
+
+		return []string{strconv.FormatInt(now.Unix(), 10), strconv.Itoa(now.Nanosecond()), strconv.Itoa(offG),
+			strconv.Itoa(offC), strconv.Itoa(nG), strconv.Itoa(nC)}
+	default:
+		panic("unknown op " + f[0])
+	}
+}
+
+// c18sBubble is a running synctest bubble serving the lines of one block.
+type c18sBubble struct {
+	req  chan []string
+	resp chan []string
+	done chan struct{}
+}
+
+func c18sStart(t *testing.T, dataDir string) *c18sBubble {
+	b := &c18sBubble{req: make(chan []string), resp: make(chan []string), done: make(chan struct{})}
+	go func() {
+		defer close(b.done)
+		synctest.Test(t, func(t *testing.T) {
+			w := &c18sWorld{dataDir: dataDir}
+			defer func() {
+				if w.d != nil {
+					w.d.Close()
+				}
+			}()
+			for f := range b.req {
+				b.resp <- func() (out []string) {
+					defer func() {
+						if v := recover(); v != nil {
+							out = []string{"\x00panic", fmt.Sprint(v)}
+						}
+					}()
+
+					return w.do(f)
+				}()
+			}
+		})
+	}()
+
+	return b
+}
+
+func (b *c18sBubble) stop() {
+	close(b.req)
+	<-b.done
+}
+
+func c18sRun(t *testing.T) (run func(f []string) []string, stop func()) {
+	InitModule()
+	base := t.TempDir()
+	var cur *c18sBubble
+	stop = func() {
+		if cur != nil {
+			cur.stop()
+			cur = nil
+		}
+	}
+	run = func(f []string) []string {
+		if f[0] == "C18.sreset" {
+			stop()
+			dir, err := os.MkdirTemp(base, "blk")
+			if err != nil {
+				panic(err)
+			}
+			cur = c18sStart(t, dir)
+		}
+		if cur == nil {
+			panic("c18: line outside a block")
+		}
+		cur.req <- f
+		out := <-cur.resp
+		if len(out) == 2 && out[0] == "\x00panic" {
+			panic(out[1])
+		}
+
+		return out
+	}
+
+	return run, stop
+}
+
+// c18sGen generates blocks.
+func c18sGen(r *rand.Rand, emit vutil.Emit) {
+	zones := c18fZones()
+	const minute, day = int64(time.Minute), 24 * int64(time.Hour)
+	full := [2]int64{0, day}
+	type conf struct {
+		zone string
+		loc  *time.Location
+		days [7][2]int64
+		n    int
+	}
+	fmtConf := func(c *conf) (f []string) {
+		f = append(f, vutil.Hex(c.zone))
+		for _, d := range c.days {
+			f = append(f, strconv.FormatInt(d[0], 10), strconv.FormatInt(d[1], 10))
+		}
+
+		return append(f, strconv.Itoa(c.n))
+	}
+	mk := func(a, b int64) [2]int64 {
+		a, b = max(a, 0), min(b, 1440)
+		if a >= b {
+			return [2]int64{}
+		}
+
+		return [2]int64{a * minute, b * minute}
+	}
+	// newConf builds a configuration whose answer at `now` is chosen to differ
+	// from (flip) or resemble the previous one in characteristic ways.
+	newConf := func(prev *conf, now time.Time) *conf {
+		c := &conf{n: 1 + r.IntN(2)}
+		if r.IntN(12) == 0 {
+			c.n = 0
+		}
+		if prev != nil && r.IntN(10) < 7 {
+			c.zone, c.loc = prev.zone, prev.loc
+		} else {
+			c.zone = vutil.Pick(r, zones)
+			c.loc, _ = time.LoadLocation(c.zone)
+		}
+		lt := now.In(c.loc)
+		h, m, _ := lt.Clock()
+		tod, wd := int64(h*60+m), int(lt.Weekday())
+		switch r.IntN(10) {
+		case 0, 1:
+			for j := range c.days {
+				c.days[j] = full
+			}
+		case 2, 3:
+			// no ranges at all
+		case 4:
+			c.days[wd] = mk(tod, tod+1)
+		case 5:
+			c.days[wd] = mk(tod+1, tod+2+int64(r.IntN(90)))
+		case 6:
+			c.days[wd] = mk(tod-int64(1+r.IntN(90)), tod)
+		case 7:
+			c.days[wd] = mk(0, tod+1)
+			c.days[(wd+1)%7] = mk(0, int64(r.IntN(3)))
+		case 8:
+			for j := range c.days {
+				if j != wd {
+					c.days[j] = full
+				}
+			}
+		default:
+			for j := range c.days {
+				a, b := int64(r.IntN(1441)), int64(r.IntN(1441))
+				c.days[j] = mk(min(a, b), max(a, b))
+			}
+		}
+
+		return c
+	}
+	offAt := func(c *conf, t time.Time) int {
+		if c == nil {
+			return 0
+		}
+		_, off := t.In(c.loc).Zone()
+
+		return off
+	}
+	utc := &conf{zone: "Local", loc: time.Local}
+
+	n := vutil.N(300)
+	for blk := 0; blk < n; blk++ {
+		emit("C18.sreset")
+		g, cli := utc, (*conf)(nil)
+		// start near a transition of a random zone, or anywhere in 2000-2040
+		z0, _ := time.LoadLocation(vutil.Pick(r, zones))
+		now := time.Unix(c18fBubbleStart.Unix()+86400+r.Int64N(39*365*86400), 0)
+		if r.IntN(3) > 0 {
+			if _, end := now.In(z0).ZoneBounds(); !end.IsZero() && end.Year() < 2040 {
+				now = end.Add(-time.Duration(r.IntN(7200)) * time.Second)
+			}
+		}
+		nOps := 20 + r.IntN(50)
+		for i := 0; i < nOps; i++ {
+			switch k := r.IntN(20); {
+			case k < 11:
+				// a request after a clock advance
+				var d time.Duration
+				ref := g
+				if cli != nil && r.IntN(2) == 0 {
+					ref = cli
+				}
+				lt := now.In(ref.loc)
+				switch r.IntN(16) {
+				case 0, 1, 2:
+					d = 0
+				case 3:
+					d = 1
+				case 4:
+					d = time.Second
+				case 5:
+					d = 59 * time.Second
+				case 6:
+					d = 60 * time.Second
+				case 7:
+					d = 61 * time.Second
+				case 8, 9:
+					// to the next minute boundary (-1 ns, 0, +1 s)
+					d = now.Truncate(time.Minute).Add(time.Minute).Sub(now) + vutil.Pick(r, []time.Duration{-1, 0, time.Second})
+				case 10:
+					d = now.Truncate(time.Hour).Add(time.Hour).Sub(now) + vutil.Pick(r, []time.Duration{-1, 0, time.Second})
+				case 11:
+					// the next local midnight of the schedule's zone
+					y, mo, dd := lt.Date()
+					d = time.Date(y, mo, dd+1, 0, 0, 0, 0, ref.loc).Sub(now) + vutil.Pick(r, []time.Duration{-time.Second, -1, 0, time.Second})
+				case 12:
+					// the next transition of the schedule's zone
+					if _, end := lt.ZoneBounds(); !end.IsZero() && end.Year() < 2040 {
+						d = end.Sub(now) + vutil.Pick(r, []time.Duration{-time.Second, 0, time.Second, 30 * time.Minute, time.Hour})
+					}
+				case 13:
+					d = time.Hour
+				case 14:
+					d = 24 * time.Hour
+				default:
+					d = time.Duration(r.Int64N(int64(3 * time.Hour)))
+				}
+				if d < 0 {
+					d = 0
+				}
+				now = now.Add(d)
+				site := "global"
+				if r.IntN(2) == 0 {
+					site = "client"
+				}
+				emit("C18.sreq", site, strconv.FormatInt(now.Unix(), 10), strconv.Itoa(now.Nanosecond()),
+					strconv.Itoa(offAt(g, now)), strconv.Itoa(offAt(cli, now)))
+			case k < 15:
+				g = newConf(g, now)
+				emit(append([]string{"C18.supd"}, fmtConf(g)...)...)
+			case k < 16:
+				c := *g
+				c.n = r.IntN(3)
+				g = &c
+				emit("C18.sset", strconv.Itoa(g.n))
+			default:
+				if cli != nil && r.IntN(5) == 0 {
+					cli = nil
+					emit("C18.scli", "0", "-", "0", "0", "0", "0", "0", "0", "0", "0", "0", "0", "0", "0", "0", "0", "0")
+				} else {
+					cli = newConf(cli, now)
+					emit(append([]string{"C18.scli", "1"}, fmtConf(cli)...)...)
+				}
+			}
+		}
+	}
+}
+
+func TestVerifC18Seq(t *testing.T) {
+	run, stop := c18sRun(t)
+	defer stop()
+	vutil.Main(t, c18sGen, run)
+}
